@@ -444,6 +444,7 @@ fn touches_glyph(op: &Op, ln: &str, g: &str) -> bool {
 pub struct Hist {
     pub start: String,
     pub start_wf: bool,
+    pub start_case_clash: bool,
     pub font: Font,
     pub eff_raw: bool,
     pub initial_paths: HashSet<String>,
@@ -464,8 +465,8 @@ impl Hist {
     fn class(&self) -> &'static str {
         if self.eff_raw {
             "entry-raw"
-        } else if !self.start_wf {
-            "load-no-uniqueness"
+        } else if self.start_case_clash {
+            "load-case-clash"
         } else {
             ""
         }
@@ -579,6 +580,9 @@ fn xml_escape(s: &str) -> String {
 fn parse_disk(text: &str) -> Vec<(usize, String, Vec<(usize, String)>)> {
     let mut v = Vec::new();
     for l in text.split(';').filter(|x| !x.is_empty()) {
+        if l.matches(':').count() < 2 {
+            continue;
+        }
         let parts: Vec<&str> = l.splitn(3, ':').collect();
         let ni = parse_ops(&format!("C{}", parts[0]));
         let ni = match &ni[0] {
@@ -635,28 +639,42 @@ pub fn start_font(start: &str, tmp: &Path) -> Option<(Font, HashSet<String>)> {
 }
 
 /// (text, well-formed?)
-pub const STARTS: [(&str, bool); 10] = [
-    ("N", true),
-    ("6:glyphs:0=a.glif,1=A_.glif,;3:glyphs.b:0=a.glif,;", true),
-    ("0:glyphs.a:1=x.glif,2=X_.glif,;5:glyphs:3=b.glif,;1:glyphs.A_:;", true),
-    ("5:glyphs:;3:glyphs.A_:0=a.glif,;", true),
-    ("5:glyphs:;0:glyphs.a:;0:glyphs.b:;", false),
-    ("5:glyphs:;0:glyphs.a:;1:glyphs.a:;", false),
-    ("0:glyphs:;5:glyphs.x:;", false),
-    ("5:glyphs:;0:glyphs:;", false),
-    ("5:glyphs:;0:glyphs.a:;1:glyphs.A:;", false),
-    ("5:glyphs:0=x.glif,1=X.glif,;", false),
+/// (text, well-formed?, member of the known class load-case-clash?). Trees that the checks at
+/// load must refuse are neither: should one of them load, every oracle failure counts.
+pub const STARTS: [(&str, bool, bool); 17] = [
+    ("N", true, false),
+    ("6:glyphs:0=a.glif,1=A_.glif,;3:glyphs.b:0=a.glif,;", true, false),
+    ("0:glyphs.a:1=x.glif,2=X_.glif,;5:glyphs:3=b.glif,;1:glyphs.A_:;", true, false),
+    ("5:glyphs:;3:glyphs.A_:0=a.glif,;", true, false),
+    // refused: duplicate layer name, duplicate directory, non-default public.default, two defaults
+    ("5:glyphs:;0:glyphs.a:;0:glyphs.b:;", false, false),
+    ("5:glyphs:;0:glyphs.a:;1:glyphs.a:;", false, false),
+    ("0:glyphs:;5:glyphs.x:;", false, false),
+    ("5:glyphs:;0:glyphs:;", false, false),
+    // load, but directories / file names are equal ignoring case
+    ("5:glyphs:;0:glyphs.a:;1:glyphs.A:;", false, true),
+    ("5:glyphs:0=x.glif,1=X.glif,;", false, true),
+    ("5:glyphs:;3:glyphs.A_:;4:glyphs.a_:;", false, true),
+    // refused by the checks at load (directories / file names that are not plain, exact duplicates)
+    ("5:glyphs:;0:..:;", false, false),
+    ("5:glyphs:;0:sub/x:;", false, false),
+    ("5:glyphs:;0:.:;", false, false),
+    ("5:glyphs:;0::;", false, false),
+    ("5:glyphs:0=../a.glif,;", false, false),
+    ("5:glyphs:0=a.glif,1=a.glif,;", false, false),
 ];
 
 fn new_hist(start: &str, wf: bool, tmp: &Path) -> Option<Hist> {
     let (font, initial) = start_font(start, tmp)?;
-    Some(Hist { start: start.to_string(), start_wf: wf, font, eff_raw: false, initial_paths: initial, ops: String::new() })
+    let clash = STARTS.iter().find(|(s, _, _)| *s == start).map(|(_, _, c)| *c).unwrap_or(false);
+    Some(Hist { start: start.to_string(), start_wf: wf, start_case_clash: clash, font, eff_raw: false, initial_paths: initial, ops: String::new() })
 }
 
 fn clone_hist(h: &Hist) -> Hist {
     Hist {
         start: h.start.clone(),
         start_wf: h.start_wf,
+        start_case_clash: h.start_case_clash,
         font: h.font.clone(),
         eff_raw: h.eff_raw,
         initial_paths: h.initial_paths.clone(),
@@ -685,7 +703,7 @@ fn trie(h: &Hist, alphabet: &[Op], depth: usize, prev: &str, tmp: &Path, sink: &
 }
 
 struct TrieSpec {
-    id: &'static str,
+    id: String,
     start: usize,
     alphabet: Vec<Op>,
     depth: usize,
@@ -844,14 +862,13 @@ pub fn main(a: &Args) {
     let mut shards: Vec<serde_json::Value> = Vec::new();
     let deep = if a.thorough() { 5 } else { 4 };
     let mut specs = vec![
-        TrieSpec { id: "G", start: 0, alphabet: glyph_alphabet_small(), depth: deep, split: 2 },
-        TrieSpec { id: "L", start: 0, alphabet: layer_alphabet_small(), depth: deep, split: 2 },
-        TrieSpec { id: "Gw", start: 0, alphabet: glyph_alphabet_wide(), depth: 3, split: 1 },
-        TrieSpec { id: "Lw", start: 0, alphabet: layer_alphabet_wide(), depth: 3, split: 1 },
+        TrieSpec { id: "G".to_string(), start: 0, alphabet: glyph_alphabet_small(), depth: deep, split: 2 },
+        TrieSpec { id: "L".to_string(), start: 0, alphabet: layer_alphabet_small(), depth: deep, split: 2 },
+        TrieSpec { id: "Gw".to_string(), start: 0, alphabet: glyph_alphabet_wide(), depth: 3, split: 1 },
+        TrieSpec { id: "Lw".to_string(), start: 0, alphabet: layer_alphabet_wide(), depth: 3, split: 1 },
     ];
     for s in 0..STARTS.len() {
-        let ids = ["M0", "M1", "M2", "M3", "M4", "M5", "M6", "M7", "M8", "M9"];
-        specs.push(TrieSpec { id: ids[s], start: s, alphabet: mixed_alphabet(), depth: if s < 4 { 2 } else { 1 }, split: if s < 4 { 1 } else { 0 } });
+        specs.push(TrieSpec { id: format!("M{}", s), start: s, alphabet: mixed_alphabet(), depth: if s < 4 { 2 } else { 1 }, split: if s < 4 { 1 } else { 0 } });
     }
     if light {
         // C07's container part: well-formed starts, no raw entry access (those belong to C06)
@@ -861,6 +878,11 @@ pub fn main(a: &Args) {
         }
     }
     let mut nodes = 0u64;
+    // which start trees load at all (the model must agree)
+    let starts: Vec<serde_json::Value> = STARTS
+        .iter()
+        .map(|(t, wf, clash)| serde_json::json!({"start": t, "well_formed": wf, "case_clash": clash, "loads": start_font(t, &tmp).is_some()}))
+        .collect();
     let tries: Vec<serde_json::Value> = specs
         .iter()
         .map(|s| serde_json::json!({"id": s.id, "start": STARTS[s.start].0, "well_formed_start": STARTS[s.start].1,
@@ -868,7 +890,7 @@ pub fn main(a: &Args) {
             "alphabet": s.alphabet.iter().map(op_text).collect::<Vec<_>>().join(" ")}))
         .collect();
     for spec in &specs {
-        let (start, wf) = STARTS[spec.start];
+        let (start, wf, _) = STARTS[spec.start];
         let root = match new_hist(start, wf, &tmp) {
             Some(h) => h,
             None => continue,
@@ -923,8 +945,8 @@ pub fn main(a: &Args) {
     let mut shard_no = 0usize;
     let mut hist_steps = 0u64;
     for i in 0..nrand {
-        let si = if i % 3 == 0 { 0 } else { rng.below(if light { 4 } else { STARTS.len() as u64 }) as usize };
-        let (start, wf) = STARTS[si];
+        let si = if i % 3 == 0 { 0 } else { rng.below(if light { 4 } else { 11 }) as usize };
+        let (start, wf, _) = STARTS[si];
         let mut h = match new_hist(start, wf, &tmp) {
             Some(h) => h,
             None => continue,
@@ -968,7 +990,7 @@ pub fn main(a: &Args) {
     for n in NAMES {
         chars.extend(n.chars());
     }
-    for (s, _) in STARTS {
+    for (s, _, _) in STARTS {
         chars.extend(s.chars());
     }
     let mut up: Vec<String> = Vec::new();
@@ -994,7 +1016,7 @@ pub fn main(a: &Args) {
     );
     write_file(&a.out.join("oracle.jsonl"), &sink.oracle);
     let summary = serde_json::json!({
-        "shards": shards, "tries": tries, "trie_nodes": nodes, "random_histories": nrand, "random_steps": hist_steps,
+        "shards": shards, "tries": tries, "starts": starts, "trie_nodes": nodes, "random_histories": nrand, "random_steps": hist_steps,
         "operations_applied": sink.steps, "save_load_round_trips": sink.saveloads, "outcomes": sink.outs,
         "oracle_failures": sink.failures, "oracle_failures_not_written": sink.known_hits,
         "names": NAMES.iter().map(|n| n.to_string()).collect::<Vec<_>>(),
@@ -1010,7 +1032,7 @@ fn replay(p: &Path, out: &Path) {
     let ops = parse_ops(inp["ops"].as_str().unwrap_or(""));
     let tmp = out.join("tmp_replay");
     std::fs::create_dir_all(&tmp).unwrap();
-    let wf = STARTS.iter().find(|(s, _)| *s == start).map(|(_, w)| *w).unwrap_or(true);
+    let wf = STARTS.iter().find(|(s, _, _)| *s == start).map(|(_, w, _)| *w).unwrap_or(true);
     let mut h = match new_hist(&start, wf, &tmp) {
         Some(h) => h,
         None => {
